@@ -143,7 +143,7 @@ func c10Store(c *Ctx) {
 		var got []candVotes
 		t := c.W.Do(tag, "top", func() { got = topOf(db.GetCandidatesTop(m.Blk.Hash())) })
 		if !t.Finished {
-			c.Fail("C10/top-list/unreadable/store", "GetCandidatesTop of block %d panics (%v) %s; last steps: %v", m.Blk.Height(), t.Panic, when, story)
+			c.Fail("C10/top-list/unreadable", "GetCandidatesTop of block %d panics (%v) %s; last steps: %v", m.Blk.Height(), t.Panic, when, story)
 			return false
 		}
 		exp := m.expected(max)
@@ -173,8 +173,8 @@ func c10Store(c *Ctx) {
 		if reopened {
 			who = "store-reopened"
 		}
-		c.Fail("C10/top-list/"+classifyTop(got, exp, state, max)+"/"+who, "block %d/%s %s: published top list %s; registered candidates sorted by votes desc, address asc, cut to %d: %s (%d registered); last steps: %v",
-			m.Blk.Height(), m.Blk.Hash().Hex()[:10], when, topString(got), max, topString(exp), m.registered(), story)
+		c.Fail("C10/top-list/"+classifyTop(got, exp, state, max)+ctxClass(who), "block %d/%s %s (%s): published top list %s; registered candidates sorted by votes desc, address asc, cut to %d: %s (%d registered); last steps: %v",
+			m.Blk.Height(), m.Blk.Hash().Hex()[:10], when, who, topString(got), max, topString(exp), m.registered(), story)
 		return false
 	}
 	// genesis: 1..max+1 candidates with 0 votes, each with a (0 -> 0) vote log as the real genesis has
